@@ -124,20 +124,22 @@ def body_merge(env):
     n = env.params['n']
     with env.patch(MODS):
         vals = [env.real('b%d' % i, lo=0, lo_strict=False, hi=20) for i in range(n)]
-        # distribute over the three sources the real method reads
-        src_power = vals[:1]
-        src_reg = vals[1:3]
-        src_user = vals[3:]
-        zfm = np.empty(len(src_power), dtype=object)
-        for i, v in enumerate(src_power):
-            zfm[i] = v * 100          # the method multiplies by 1e-2
-        if env.mode == 'replay':
-            zfm = zfm.astype(float)
-        s = StubSelf(power={'user': [[None, {'zfm': zfm}]]},
-                     _options={'axial_plane': list(src_user) if src_user else None})
-        reg = {'r1': {'z_lo': src_reg[0] if src_reg else 0.0,
-                      'z_hi': src_reg[1] if len(src_reg) > 1 else 0.0}}
-        inp = _Inp({'Assembly': {'a': {'AxialRegion': reg}}})
+        # distribute over the sources the real method reads: two assemblies in the user power, two assembly
+        # types with an axial region each, user-requested planes (the first assembly / type is never the only one)
+        def zfm_of(v):
+            z = np.empty(1, dtype=object)
+            z[0] = v * 100            # the method multiplies by 1e-2
+            return z.astype(float) if env.mode == 'replay' else z
+        pw = [[None, {'zfm': zfm_of(v)}] for v in vals[:2]]
+        rest = vals[2:]
+        regs = {}
+        if len(rest) > 0:
+            regs['a'] = {'AxialRegion': {'r1': {'z_lo': rest[0], 'z_hi': rest[0]}}}
+        if len(rest) > 1:
+            regs['b'] = {'AxialRegion': {'r1': {'z_lo': rest[1], 'z_hi': rest[1]}, 'r2': {'z_lo': rest[1], 'z_hi': rest[1]}}}
+        src_user = rest[2:]
+        s = StubSelf(power={'user': pw}, _options={'axial_plane': list(src_user) if src_user else None})
+        inp = _Inp({'Assembly': regs})
         rm.Reactor._setup_axial_region_bnds(s, inp)
         out = s.axial_bnds
         for i in range(len(out) - 1):
@@ -147,7 +149,7 @@ def body_merge(env):
         for j, v in enumerate(vals):
             near = None
             for i in range(len(out)):
-                d = out[i] - (v * 100 * 1e-2 if j == 0 else v)
+                d = out[i] - (v * 100 * 1e-2 if j < 2 else v)
                 c = env.land(d <= 0.5e-12 * 1.0000001, d >= -0.5e-12 * 1.0000001)
                 near = c if near is None else env.lor(near, c)
             env.holds('input boundary %d survives the merge (to rounding)' % j, near)
@@ -165,7 +167,7 @@ def instances(tier):
     for nb, ns in loops:
         inst.append(dict(label='loop[nb=%d,nsteps<=%d]' % (nb, ns), body=body_loop,
                          params={'nb': nb, 'nsteps': ns}, max_paths=6000, max_depth=200))
-    for n in ((2, 3) if tier == 'quick' else (2, 3, 4)):
+    for n in ((2, 3, 4) if tier == 'quick' else (2, 3, 4, 5)):
         inst.append(dict(label='merge[n=%d]' % n, body=body_merge, params={'n': n}, max_paths=3000))
     return inst
 
@@ -180,7 +182,7 @@ def main():
                      'termination follows from the inductive step "every iteration advances by >= 1e-12 m and never '
                      'passes the core length", which is also cross-checked by running the whole loop for bounded lengths.'),
         bounds={'min_dz entries': '1..2 (quick) / 1..3', 'boundaries in the step/loop harness': '1..3 (quick) / 1..5',
-                'whole-loop unrolling': 'core length <= 2..4 required steps', 'merged boundary values': '2..3 (quick) / 2..4',
+                'whole-loop unrolling': 'core length <= 2..4 required steps', 'merged boundary values': '2..4 (quick) / 2..5, spread over two user-power assemblies, two assembly types and requested planes',
                 'value ranges': 'min_dz, user step in (0,10] m; boundaries on the 1e-12 grid up to 20 m'},
         outside=['IEEE behaviour of np.around at exact ties (round-half-even vs the round-half-up model)',
                  'more boundaries than the bound', 'DIF3D binary mesh source'],
